@@ -148,6 +148,12 @@ func (n *Net) lookup(host string) ([]net.IPAddr, error) {
 			n.Counts["dns.change"]++
 		}
 	}
+	if len(list[i]) == 0 {
+		// an empty answer in the sequence: this lookup fails (resolver outage, timeout), later ones may succeed
+		n.Counts["dns.fail_transient"]++
+		n.lastAns[h] = []string{"<lookup failed>"}
+		return nil, &net.DNSError{Err: "i/o timeout", Name: host, IsTimeout: true, IsTemporary: true}
+	}
 	var out []net.IPAddr
 	var strs []string
 	for _, ip := range list[i] {
